@@ -34,6 +34,19 @@ ASSUMPTIONS = ["floats -0.0/NaN and tuples that differ only by bool/int at equal
 BUDGET = {"quick": 240, "thorough": 2400}
 
 
+@zoo.dataclass(frozen=True)
+class Shade(zoo.Expr):
+    v: int = 0
+
+
+_ShadeBase = Shade
+
+
+@zoo.dataclass(frozen=True)
+class Shade(_ShadeBase):  # noqa: F811  a subclass that keeps its parent's name (same module: pyoak allows it)
+    pass
+
+
 class _Rec:
     """stands in for the name `hashlib` inside pyoak.node and records blake2b inputs"""
 
@@ -231,6 +244,13 @@ def cases(rng: random.Random, tier: str):
                 cross.append(sa)
                 cross_ids.append(a.content_id)
             rec.table.clear()
+        # classes are compared by identity, not by name: a subclass keeping its parent's name is another class
+        for v in range(3):
+            b0, s0 = _ShadeBase(v=v), Shade(v=v)
+            bad = b0.is_equal(s0) or s0.is_equal(b0) or not b0.is_equal(_ShadeBase(v=v)) or not s0.is_equal(Shade(v=v))
+            yield Case("same-name-subclass", None, None, True, f"Shade(v={v}) base class vs same-named subclass",
+                       oracle_fail="is_equal is True across two different classes (or False within one)" if bad else None,
+                       sig="cid|is_equal|same-name-subclass")
         # separator-splice attack, with the framing text learned from an observed pre-image
         rec.table.clear()
         probe = zoo.Two(a="QQQ", b="WWW")
